@@ -117,6 +117,43 @@ func extra() {
 	}
 	emitList("renderLoops", loops)
 	emitStr("renderKeysFrom", keysFrom)
+	// kube/client.go batchPerform: what the batches are keyed by, and that the wait sits under the key change
+	bp := funcDecl(parse("pkg/kube/client.go"), "", "batchPerform")
+	batchKey, waitsOnChange, addBeforeGo := "", false, false
+	if bp != nil && bp.Body != nil {
+		ast.Inspect(bp.Body, func(n ast.Node) bool {
+			switch x := n.(type) {
+			case *ast.AssignStmt:
+				if len(x.Lhs) == 1 && len(x.Rhs) == 1 {
+					if id, ok := x.Lhs[0].(*ast.Ident); ok && id.Name == "currentKind" {
+						batchKey = exprText(x.Rhs[0])
+					}
+				}
+			case *ast.IfStmt:
+				if be, ok := x.Cond.(*ast.BinaryExpr); ok && be.Op.String() == "!=" && exprText(be.X) == "kind" && exprText(be.Y) == "currentKind" {
+					for _, st := range x.Body.List {
+						if es, ok := st.(*ast.ExprStmt); ok && exprText(es.X) == "wg.Wait()" {
+							waitsOnChange = true
+						}
+					}
+				}
+			case *ast.RangeStmt:
+				seenAdd := false
+				for _, st := range x.Body.List {
+					if es, ok := st.(*ast.ExprStmt); ok && exprText(es.X) == "wg.Add(1)" {
+						seenAdd = true
+					}
+					if _, ok := st.(*ast.GoStmt); ok && seenAdd {
+						addBeforeGo = true
+					}
+				}
+			}
+			return true
+		})
+	}
+	emitStr("batchKey", batchKey)
+	fmt.Fprintf(&out, "def batchWaitsOnKeyChange : Bool := %v\n", waitsOnChange)
+	fmt.Fprintf(&out, "def batchAddsBeforeGo : Bool := %v\n", addBeforeGo)
 	// engine.go recursion guard: the limit, whether tpl hands the counters it was given to the include and
 	// tpl closures of its clone (and initFunMap one map to both), whether tpl counts its own nesting
 	emitNat("recursionMaxNums", need(consts(eng), "recursionMaxNums"))
